@@ -44,7 +44,10 @@ var preludeDecls = []preludeDecl{
 	{"str_of_rune", "(declare-fun str_of_rune (Int) String)", nil},
 	{"str_explode", "(declare-fun str_explode (String) (Array Int String))\n(assert (forall ((s String) (i Int)) (! (=> (and (<= 0 i) (< i (rune_count s))) (< 0 (str.len (select (str_explode s) i)))) :pattern ((select (str_explode s) i)))))\n(assert (forall ((s String)) (! (=> (= (rune_count s) 1) (= (select (str_explode s) 0) s)) :pattern ((str_explode s)))))", []string{"rune_count"}},
 	{"str_count", "(declare-fun str_count (String String) Int)\n(assert (forall ((s String) (t String)) (! (<= 0 (str_count s t)) :pattern ((str_count s t)))))", nil},
-	{"str_sort", "(declare-fun str_sort ((Array Int String) Int) (Array Int String))", nil},
+	{"str_sort", "(declare-fun str_sort ((Array Int String) Int) (Array Int String))\n" +
+		"(assert (forall ((a (Array Int String)) (n Int) (i Int)) (! (=> (and (<= 0 i) (< i n)) (exists ((j Int)) (and (<= 0 j) (< j n) (= (select (str_sort a n) i) (select a j))))) :pattern ((select (str_sort a n) i)))))\n" +
+		"(assert (forall ((a (Array Int String)) (n Int) (j Int)) (! (=> (and (<= 0 j) (< j n)) (exists ((i Int)) (and (<= 0 i) (< i n) (= (select (str_sort a n) i) (select a j))))) :pattern ((str_sort a n) (select a j)))))\n" +
+		"(assert (forall ((a (Array Int String)) (n Int) (i Int) (j Int)) (! (=> (and (<= 0 i) (< i j) (< j n)) (str.<= (select (str_sort a n) i) (select (str_sort a n) j))) :pattern ((select (str_sort a n) i) (select (str_sort a n) j)))))", nil},
 	{"err_msg", "(declare-fun err_msg (Int) String)", nil},
 	{"err_is", "(declare-fun err_is (Int Int) Bool)", nil},
 	{"iface_tag", "(declare-fun iface_tag (Int) String)", nil},
@@ -56,9 +59,96 @@ var preludeDecls = []preludeDecl{
 
 var symRe = regexp.MustCompile(`[A-Za-z_][A-Za-z0-9_]*`)
 
+var tokRe = regexp.MustCompile(`\|[^|]*\||[A-Za-z_$!][A-Za-z0-9_$!.:<>*@#%~\[\]-]*`)
+
+// lightCmds drops quantified assumptions that share no symbol with the goal's definition closure.
+// Dropping assumptions is sound: an unsat answer for the lighter script is an unsat answer for the full one.
+func lightCmds(cmds []string, goal string) []string {
+	declared := map[string]bool{}
+	for _, c := range cmds {
+		if strings.HasPrefix(c, "(declare-const ") {
+			rest := c[len("(declare-const "):]
+			if m := tokRe.FindString(rest); m != "" {
+				declared[m] = true
+			}
+		}
+	}
+	syms := func(t string) []string {
+		var out []string
+		for _, m := range tokRe.FindAllString(t, -1) {
+			if declared[m] {
+				out = append(out, m)
+			}
+		}
+		return out
+	}
+	rel := map[string]bool{}
+	for _, x := range syms(goal) {
+		rel[x] = true
+	}
+	type item struct {
+		text  string
+		syms  []string
+		quant bool
+		def   string
+	}
+	var items []item
+	for _, c := range cmds {
+		if !strings.HasPrefix(c, "(assert ") {
+			continue
+		}
+		it := item{text: c, syms: syms(c), quant: strings.Contains(c, "(forall ") || strings.Contains(c, "(exists ")}
+		if strings.HasPrefix(c, "(assert (= ") {
+			if m := tokRe.FindString(c[len("(assert (= "):]); m != "" && declared[m] && strings.HasPrefix(c[len("(assert (= "):], m+" ") {
+				it.def = m
+			}
+		}
+		items = append(items, it)
+	}
+	for changed := true; changed; {
+		changed = false
+		for _, it := range items {
+			if it.def != "" && rel[it.def] && !it.quant {
+				for _, x := range it.syms {
+					if !rel[x] {
+						rel[x] = true
+						changed = true
+					}
+				}
+			}
+		}
+	}
+	var out []string
+	k := 0
+	for _, c := range cmds {
+		if !strings.HasPrefix(c, "(assert ") {
+			out = append(out, c)
+			continue
+		}
+		it := items[k]
+		k++
+		if !it.quant {
+			out = append(out, c)
+			continue
+		}
+		for _, x := range it.syms {
+			if rel[x] {
+				out = append(out, c)
+				break
+			}
+		}
+	}
+	return out
+}
+
 // buildScript assembles the SMT-LIB text of an obligation.
 func (e *Engine) buildScript(o *Obligation, forSolver string) string {
-	body := strings.Join(o.Cmds, "\n")
+	cmds := o.Cmds
+	if strings.HasSuffix(forSolver, "-light") {
+		forSolver = strings.TrimSuffix(forSolver, "-light")
+		cmds = lightCmds(cmds, o.Goal)
+	}
+	body := strings.Join(cmds, "\n")
 	goal := o.Goal
 	text := body + "\n" + goal
 	// user-defined recursive spec functions and axioms referenced by the VC
@@ -109,6 +199,9 @@ func (e *Engine) buildScript(o *Obligation, forSolver string) string {
 		}
 	}
 	b.WriteString(extra)
+	if forSolver == "z3-prelude" {
+		return b.String()
+	}
 	b.WriteString(body)
 	b.WriteString("\n")
 	if o.Expect == "sat" {
@@ -222,16 +315,150 @@ func runSolver(ctx context.Context, cfg solverCfg, file string, timeout int) sol
 	return solverResult{cfg.name, ans, txt, secs}
 }
 
+// isPrefix reports whether a is a prefix of b (compared at the boundary and a few probes; cmds are append-only logs).
+func isPrefix(a, b []string) bool {
+	if len(a) > len(b) {
+		return false
+	}
+	if len(a) == 0 {
+		return true
+	}
+	for _, k := range []int{len(a) - 1, len(a) / 2, 0} {
+		if a[k] != b[k] {
+			return false
+		}
+	}
+	return true
+}
+
+// solveBatch runs a chain of obligations (each one's assumptions extend the previous one's) in ONE incremental
+// z3 process with push/pop. Only unsat answers are taken; everything else is left to the per-obligation portfolio.
+func (e *Engine) solveBatch(bi int, batch []*Obligation, workdir string) {
+	var all strings.Builder
+	for _, o := range batch {
+		all.WriteString(o.Goal)
+		all.WriteString("\n")
+	}
+	last := batch[len(batch)-1]
+	pre := e.buildScript(&Obligation{Cmds: append(append([]string(nil), last.Cmds...), all.String()), Goal: "true", Expect: "sat"}, "z3-prelude")
+	var b strings.Builder
+	b.WriteString("(set-option :timeout 1500)\n")
+	b.WriteString(pre)
+	done := 0
+	for _, o := range batch {
+		for _, c := range o.Cmds[done:] {
+			b.WriteString(c)
+			b.WriteString("\n")
+		}
+		done = len(o.Cmds)
+		b.WriteString("(push 1)\n(assert (not " + o.Goal + "))\n(check-sat)\n(pop 1)\n")
+	}
+	f := filepath.Join(workdir, fmt.Sprintf("batch%04d.smt2", bi))
+	os.WriteFile(f, []byte(b.String()), 0o644)
+	t0 := time.Now()
+	ctx, cancel := context.WithTimeout(context.Background(), time.Duration(2*len(batch)+5)*time.Second)
+	defer cancel()
+	cmd := exec.CommandContext(ctx, "z3-new", f)
+	var out bytes.Buffer
+	cmd.Stdout = &out
+	cmd.Stderr = &out
+	_ = cmd.Run()
+	secs := time.Since(t0).Seconds()
+	var answers []string
+	for _, ln := range strings.Split(out.String(), "\n") {
+		ln = strings.TrimSpace(ln)
+		if ln == "unsat" || ln == "sat" || ln == "unknown" || strings.HasPrefix(ln, "(error") {
+			answers = append(answers, ln)
+		}
+	}
+	for i, o := range batch {
+		if i < len(answers) && answers[i] == "unsat" {
+			o.Status = "discharged"
+			o.Solver = "z3-new"
+			o.Time = secs / float64(len(batch))
+			o.Detail = "z3-new=unsat(incremental batch)"
+			o.File = f
+		}
+	}
+}
+
 // solveAll discharges obligations in parallel.
 func (e *Engine) solveAll(obls []*Obligation, workdir string, timeout int, jobs int, thorough bool) {
 	os.MkdirAll(workdir, 0o755)
 	sem := make(chan struct{}, jobs)
 	var wg sync.WaitGroup
+	// pass 1: chains of obligations along one path are sent to one incremental z3 process each
+	if !thorough {
+		var batches [][]*Obligation
+		var cur []*Obligation
+		for _, o := range obls {
+			if o.Trivial || o.Expect != "unsat" || o.Kind == "anchor" || o.Kind == "spec-error" || o.Kind == "unsupported" || o.Kind == "vacuity" {
+				continue
+			}
+			if len(cur) > 0 && (!isPrefix(cur[len(cur)-1].Cmds, o.Cmds) || len(cur) >= 40) {
+				batches = append(batches, cur)
+				cur = nil
+			}
+			cur = append(cur, o)
+		}
+		if len(cur) > 0 {
+			batches = append(batches, cur)
+		}
+		var bw sync.WaitGroup
+		for bi, batch := range batches {
+			bw.Add(1)
+			go func(bi int, batch []*Obligation) {
+				defer bw.Done()
+				sem <- struct{}{}
+				defer func() { <-sem }()
+				e.solveBatch(bi, batch, workdir)
+			}(bi, batch)
+		}
+		bw.Wait()
+	}
+	// vacuity guards: one representative per (function, point) is enough; members are tried in turn until one is not unsat
+	groups := map[string][]int{}
+	var groupOrder []string
 	for i, o := range obls {
+		if o.Kind == "vacuity" && !o.Trivial {
+			k := o.Func + "/" + o.Name
+			if _, ok := groups[k]; !ok {
+				groupOrder = append(groupOrder, k)
+			}
+			groups[k] = append(groups[k], i)
+		}
+	}
+	for _, k := range groupOrder {
+		idxs := groups[k]
+		wg.Add(1)
+		go func(idxs []int) {
+			defer wg.Done()
+			sem <- struct{}{}
+			defer func() { <-sem }()
+			for n, i := range idxs {
+				e.solveOne(i, obls[i], workdir, timeout, thorough)
+				if obls[i].Status == "discharged" {
+					for _, j := range idxs[n+1:] {
+						obls[j].Status = "discharged"
+						obls[j].Solver = "group"
+						obls[j].Detail = "the same point is reachable on another path"
+					}
+					return
+				}
+			}
+		}(idxs)
+	}
+	for i, o := range obls {
+		if o.Kind == "vacuity" && !o.Trivial {
+			continue
+		}
 		if o.Trivial {
 			o.Status = "discharged"
 			o.Solver = "trivial"
 			continue
+		}
+		if o.Status == "discharged" {
+			continue // settled by the incremental pass
 		}
 		if o.Kind == "anchor" || o.Kind == "spec-error" || o.Kind == "unsupported" {
 			o.Status = "failed"
@@ -268,6 +495,10 @@ func (e *Engine) solveOne(i int, o *Obligation, workdir string, timeout int, tho
 	fc := filepath.Join(workdir, fmt.Sprintf("o%04d.cvc5.smt2", i))
 	os.WriteFile(fz, []byte(e.buildScript(o, "z3")), 0o644)
 	os.WriteFile(fc, []byte(e.buildScript(o, "cvc5")), 0o644)
+	fzl := filepath.Join(workdir, fmt.Sprintf("o%04d.z3l.smt2", i))
+	fcl := filepath.Join(workdir, fmt.Sprintf("o%04d.cvc5l.smt2", i))
+	os.WriteFile(fzl, []byte(e.buildScript(o, "z3-light")), 0o644)
+	os.WriteFile(fcl, []byte(e.buildScript(o, "cvc5-light")), 0o644)
 	o.File = fz
 	t0 := time.Now()
 	defer func() { o.Time = time.Since(t0).Seconds() }()
@@ -283,7 +514,7 @@ func (e *Engine) solveOne(i int, o *Obligation, workdir string, timeout int, tho
 		defer cancel()
 		ch := make(chan solverResult, 2)
 		for _, c := range solvers[:2] {
-			go func(c solverCfg) { ch <- runSolver(ctx, c, fileFor(c), 3) }(c)
+			go func(c solverCfg) { ch <- runSolver(ctx, c, fileFor(c), 2) }(c)
 		}
 		o.Status = "discharged"
 		o.Solver = "not-unsat"
@@ -305,14 +536,33 @@ func (e *Engine) solveOne(i int, o *Obligation, workdir string, timeout int, tho
 	// all three solvers race; the first definitive answer wins (thorough: all are heard, disagreement is an error)
 	ctx, cancel := context.WithCancel(context.Background())
 	defer cancel()
-	ch := make(chan solverResult, 3)
+	ch := make(chan solverResult, 6)
 	stage := solvers
 	for _, c := range stage {
 		go func(c solverCfg) { ch <- runSolver(ctx, c, fileFor(c), timeout) }(c)
 	}
+	// light variants (quantified assumptions pruned to the goal's definition closure): only unsat counts
+	lightN := 0
+	if len(o.Cmds) > 120 {
+		for _, c := range []solverCfg{solvers[0], solvers[1]} {
+			lightN++
+			go func(c solverCfg) {
+				f := fzl
+				if c.name == "cvc5" {
+					f = fcl
+				}
+				r := runSolver(ctx, c, f, timeout)
+				r.solver += "-light"
+				if r.answer != "unsat" {
+					r.answer = "light-" + r.answer
+				}
+				ch <- r
+			}(c)
+		}
+	}
 	var results []solverResult
 	var unsatBy, satBy *solverResult
-	for k := 0; k < len(stage); k++ {
+	for k := 0; k < len(stage)+lightN; k++ {
 		r := <-ch
 		results = append(results, r)
 		rr := r
